@@ -51,6 +51,10 @@ def replay(f, w):
     prog = [l for l in lines if l.startswith('conc_progress')]
     blocked = [l for l in lines if l.startswith('conc_blocked')]
     info = (prog[0] if prog else '')
+    if f.get('clause') == 'no panic' or 'panic' in w:
+        pl = [l for l in lines if '<panic' in l]
+        if pl: return True, 'native thread driven along the witness schedule panicked: ' + pl[0][:200] + ' ' + info, lines
+        return False, 'no native panic ' + info, lines
     if f['prop'] == 'C17' or 'deadlock' in w:
         if blocked: return True, 'native threads driven along the witness schedule never return (deadlock): ' + blocked[0] + ' ' + info, lines
         return False, 'native threads all returned ' + info, lines
